@@ -9,5 +9,5 @@ CONSTANTS
   MaxDepth = 2
   MaxNow = 0
   HttpReqs <- NoHttp
-INVARIANTS TypeOK PropertyLevel RefetchIffExpired QueryCountLaw CodeStricter NeverOnExpiry EmitBehaviour
+INVARIANTS TypeOK PropertyLevel PlainHttpServed RefetchIffExpired QueryCountLaw CodeStricter NeverOnExpiry EmitBehaviour
 CHECK_DEADLOCK FALSE
